@@ -93,12 +93,16 @@ func c03(tier string) int {
 		{Family: "iso", Params: "keys=2,slots=2,levels=RC.RR,gc=0,obs=auto,maxw=3", From: 1, To: 5},
 		{Family: "iso", Params: "keys=1,slots=2,levels=RU.SER,gc=0,obs=auto,maxw=2", From: 1, To: 5},
 		{Family: "iso", Params: "keys=1,slots=2,levels=RC.RR,gc=0,obs=auto,maxw=2", From: 6, To: 6},
+		// the two-key plan once more with map ranges iterated in descending key order: both orders of a
+		// two-key write set
+		{Family: "iso", Params: "keys=2,slots=2,levels=RC.RR,gc=0,obs=auto,maxw=3,mapdesc=1", From: 4, To: 5},
 	}
 	if tier == "thorough" {
 		plans = []seq.Plan{
 			{Family: "iso", Params: "keys=2,slots=2,levels=RC.RR,gc=0,obs=auto,maxw=3", From: 1, To: 7},
 			{Family: "iso", Params: "keys=1,slots=3,levels=RC.RR,gc=0,obs=auto,maxw=2", From: 1, To: 7},
 			{Family: "iso", Params: "keys=2,slots=2,levels=RU.SER,gc=0,obs=auto,maxw=2", From: 1, To: 6},
+			{Family: "iso", Params: "keys=2,slots=2,levels=RC.RR,gc=0,obs=auto,maxw=3,mapdesc=1", From: 4, To: 6},
 		}
 	}
 	conf := []seq.Plan{{Family: "real-iso", Params: "keys=2,slots=2,levels=RC.RR,gc=0,obs=auto,maxw=3", From: 3, To: 3}}
